@@ -223,6 +223,11 @@ def c16_oracle(c):
     for i, p in enumerate(pts):
         r = math.hypot(p[0], p[1])
         if not (d_min / 2 - tol <= r <= d_maj / 2 + tol): return fail('thread_vertices_between_minor_and_major_radius', args=a, vertex=i, radius=r, minor=d_min / 2, major=d_maj / 2)
+    # the root of the thread lies on the minor radius (major - 2*(5/8)*(sqrt(3)/2)*pitch) everywhere, and without tapers the crest on the major radius
+    rs = [math.hypot(p[0], p[1]) for p in pts]
+    if not (abs(min(rs) - d_min / 2) <= tol): return fail('thread_root_on_minor_radius', args=a, smallest_radius=min(rs), minor=d_min / 2)
+    leads = {500: (a[3], a[4]) if op == 500 else None, 513: (a[5], a[6]) if op == 513 else None, 501: (0.0, 0.0), 503: (0.0, 0.0)}.get(op)
+    if leads == (0.0, 0.0) and not (abs(max(rs) - d_maj / 2) <= tol): return fail('thread_crest_on_major_radius', args=a, largest_radius=max(rs), major=d_maj / 2)
     nrings = len(pts) // 4
     step = 360.0 / seg
     for k in range(nrings):
